@@ -366,7 +366,7 @@ def run(ctx):
         # (2) server with LINE-level yield injection (slow, so short): widens the windows between the statements of one request
         srv = Server(yield_p=0.02)
         try:
-            uniform(ctx, srv, rng, nsess=4, nops=20 if quick else 60, salt=salt + 8)
+            uniform(ctx, srv, rng, nsess=6, nops=40 if quick else 80, salt=salt + 8)
             if not quick:
                 for m in range(10):
                     if ctx.expired():
